@@ -2678,3 +2678,60 @@ Lemma noslip_fric_spec (force res arinv fl : R) : 0 <= fl ->
   Rabs (noslip_fric_update force res arinv fl) <= fl /\
   noslip_fric_update force res arinv fl = mju_clip (force - res * arinv) (- fl) fl.
 Proof. intros. split; [apply noslip_fric_bound | apply noslip_fric_is_clip]; assumption. Qed.
+
+
+(* ------------------------------------------------------------------ efc_address bookkeeping of contacts *)
+Lemma contact_addresses_length cs : forall start, length (contact_addresses start cs) = length cs.
+Proof. induction cs as [|[ex n] cs IH]; intros start; simpl; [reflexivity|]. destruct (ex =? 0)%Z; simpl; rewrite IH; reflexivity. Qed.
+
+Lemma contact_addresses_spec : forall cs start k, (k < length cs)%nat ->
+  (fst (nth k cs (1%Z, 0%Z)) <> 0%Z -> nth k (contact_addresses start cs) (-1)%Z = (-1)%Z) /\
+  (fst (nth k cs (1%Z, 0%Z)) = 0%Z ->
+     nth k (contact_addresses start cs) (-1)%Z = (start + included_rows (firstn k cs))%Z).
+Proof.
+  induction cs as [|[ex n] cs IH]; intros start k Hk; [simpl in Hk; lia|].
+  destruct k as [|k].
+  - cbn [nth fst firstn included_rows contact_addresses]. destruct (ex =? 0)%Z eqn:E.
+    + apply Z.eqb_eq in E. split; [intros; congruence | intros; cbn [nth]; lia].
+    + apply Z.eqb_neq in E. split; [intros; reflexivity | intros; congruence].
+  - simpl in Hk. cbn [nth firstn included_rows contact_addresses].
+    destruct (ex =? 0)%Z eqn:E; cbn [nth].
+    + destruct (IH (start + n)%Z k ltac:(lia)) as [A B]. split; [exact A|]. intros H0. rewrite (B H0). lia.
+    + destruct (IH start k ltac:(lia)) as [A B]. split; [exact A|]. intros H0. rewrite (B H0). lia.
+Qed.
+
+Lemma included_rows_nonneg cs : (forall c, In c cs -> (0 <= snd c)%Z) -> (0 <= included_rows cs)%Z.
+Proof.
+  induction cs as [|[ex n] cs IH]; intros H; simpl; [lia|].
+  assert (0 <= n)%Z by (apply (H (ex, n)); left; reflexivity).
+  assert (0 <= included_rows cs)%Z by (apply IH; intros c Hc; apply H; right; exact Hc).
+  destruct (ex =? 0)%Z; lia.
+Qed.
+
+(* a contact has a non-negative address exactly when it is included, and then the address is the first of its own
+   rows: start + the rows of the included contacts before it *)
+Lemma contact_addresses_sign cs start k : (0 <= start)%Z -> (forall c, In c cs -> (0 <= snd c)%Z) -> (k < length cs)%nat ->
+  ((0 <= nth k (contact_addresses start cs) (-1))%Z <-> fst (nth k cs (1%Z, 0%Z)) = 0%Z).
+Proof.
+  intros Hs Hn Hk. destruct (contact_addresses_spec cs start k Hk) as [A B].
+  destruct (Z.eq_dec (fst (nth k cs (1%Z, 0%Z))) 0) as [E|E].
+  - rewrite (B E). split; [intros; exact E|]. intros _.
+    assert (0 <= included_rows (firstn k cs))%Z.
+    { apply included_rows_nonneg. intros c Hc. apply Hn. rewrite <- (firstn_skipn k cs). apply in_or_app. left. exact Hc. }
+    lia.
+  - rewrite (A E). split; [lia | congruence].
+Qed.
+
+Lemma contact_force_rowless (pyramidal : bool) (efc_force fr : list R) (adr dim : Z) (adhesion : R) :
+  (adr < 0)%Z -> contact_force_gated pyramidal efc_force adr fr dim adhesion = repeat 0 6.
+Proof. intros H. unfold contact_force_gated. replace (adr <? 0)%Z with true by (symmetry; apply Z.ltb_lt; exact H). reflexivity. Qed.
+
+Lemma contact_addresses_full (cs : list (Z * Z)) (start : Z) (k : nat) :
+  (0 <= start)%Z -> (forall c, In c cs -> (0 <= snd c)%Z) -> (k < length cs)%nat ->
+  ((0 <= nth k (contact_addresses start cs) (-1))%Z <-> fst (nth k cs (1%Z, 0%Z)) = 0%Z) /\
+  (fst (nth k cs (1%Z, 0%Z)) <> 0%Z -> nth k (contact_addresses start cs) (-1)%Z = (-1)%Z) /\
+  (fst (nth k cs (1%Z, 0%Z)) = 0%Z ->
+     nth k (contact_addresses start cs) (-1)%Z = (start + included_rows (firstn k cs))%Z).
+Proof.
+  intros Hs Hn Hk. split; [apply contact_addresses_sign; assumption|]. apply contact_addresses_spec. exact Hk.
+Qed.
